@@ -239,7 +239,7 @@ def build():
     # _open_zipfile
     plan.target(Contract("iwork:IWork._open_zipfile", entry=lambda ex: {"self": mk_iwork(ex), "filepath": mk_path(ex)},
                          raises={"FileFormatError": None}, may_raise=OUTSIDE, safety="fork", result="none",
-                         effects=None))
+                         effects=None, search=lambda p_, c: {"custom": "search_container", "native_module": plan.native_module}))
     plan.callee(Contract("iwork:IWork._open_zipfile", label="call", when=lambda a: True, assumed=False,
                          model=lambda ex, a, k, l: (may_raise(ex, ("FileFormatError",) + IO_RAISES, "_open_zipfile", l), mk_zip(ex))[1]))
     # _read_objects_from_zipfile (recursive: uses its own contract for the nested Index.zip)
